@@ -191,8 +191,9 @@ def check_e2e(ck: Check, strs):
                 report(f"binding {v!r} raised {type(e).__name__}: {str(e)[:200]}", {"params": [repr(v)]})
     # executemany = one execute per parameter set, in order
     rows = [(1000 + i, s, "m") for i, s in enumerate(sel[:40])]
-    cur.executemany("insert into c08_t values (%s, %s, %s)", rows)
-    r = cur.execute("select id, v, w from c08_t where id >= 1000 order by id").fetchall()
+    cur.execute("create table c08_m (id int, v varchar, w varchar)")        # its own table: in the thorough tier c08_t already holds ids >= 1000
+    cur.executemany("insert into c08_m values (%s, %s, %s)", rows)
+    r = cur.execute("select id, v, w from c08_m order by id").fetchall()
     ck.cov["evaluations"] += 1
     if r != rows:
         report(f"executemany of {len(rows)} rows stored {len(r)} rows / different values", {"rows": repr(rows[:5]), "observed": repr(r[:5])})
